@@ -60,6 +60,7 @@ def run(ctx, model):
     run_repeated_calls(ctx, model)
     run_slc_operations(ctx, model)
     run_two_drivers(ctx, model)
+    run_burned_counts(ctx, model)
     outs = model.batch(lines)
     for (stream, k, want), out in zip(pend, outs):
         if out != want:
@@ -372,6 +373,50 @@ def run_slc_operations(ctx, model):
         log = model.ask("target.log")
         if "repeated on consecutive" in log:
             ctx.violation("target-duplicate-detection-fired", case, log[log.index("sequence count"):][:120])
+        pair.close()
+
+
+def run_burned_counts(ctx, model):
+    """calls that draw a count and then fail before anything is sent (SLC: `read('N7:0{200}')` passes the address
+    parser, draws the PCCC transaction number from the same generator and then fails to encode the byte size 400):
+    k such calls between two good reads.  With k + 2 a multiple of 65535 the second good read carries the count of
+    the first — the known finding C17-count-burned-by-failed-call (model counterexample `SEx.ce` of
+    seq_never_repeats_slc); every other k must stay clean."""
+    from props import slcdrv
+    rng = ctx.rng
+    ks = [65533] if ctx.tier == "quick" else [65533, 65532, 65534, 2 * 65535 - 2, 1000]
+    for k in ks:
+        files, cfg = slcdrv.gen_setup(rng)
+        pair = slcdrv.Pair(model, cfg)
+        if pair.open_error is not None:
+            pair.close()
+            continue
+        n0 = max(0, len(pair.sock.frames) - 1)
+        failed = 0
+        try:
+            a = slcdrv.gen_read_address(rng, files)[0]
+            core.with_budget(30, pair.d.read, a)
+            for _ in range(k):
+                try:
+                    pair.d.read("N7:0{200}")
+                except Exception:  # noqa
+                    failed += 1
+            core.with_budget(30, pair.d.read, a)
+        except BaseException as e:  # noqa
+            if isinstance(e, (KeyboardInterrupt, SystemExit)):
+                raise
+            ctx.count("burned-counts/raised/" + core.exn_class(e))
+        frames, seqs = _wire_counts(pair.sock.frames[n0:])
+        ctx.case("burned-counts", ("burned", k))
+        ctx.count("burned-counts/failed-calls=%d" % failed)
+        case = {"history": "read(%r), %d x read('N7:0{200}') [each fails with DataError before sending], read(%r)" % (a, k, a),
+                "failed_calls": failed}
+        for j in range(1, len(seqs)):
+            if seqs[j] == seqs[j - 1]:
+                expected = failed == k and (k + 2) % 65535 == 0 and j == len(seqs) - 1
+                sig = "sequence-count-repeated:after-65535k-minus-2-calls-that-drew-a-count-and-sent-nothing" if expected else "sequence-count-repeated"
+                ctx.violation(sig, dict(case, frame_index=j), "count %d on two consecutive connected messages of the SLC driver" % seqs[j])
+                break
         pair.close()
 
 
